@@ -439,7 +439,8 @@ class C03(SchedProp):
             yield from exhaustive_small_space()
 
     def extra_search_cases(self, rng, tier):
-        while True:
+        # finite: the main stream already runs the oracle on every case, this only widens it
+        for _ in range(2500 if tier == "quick" else 60000):
             yield gen_xform_case(rng)
             yield gen_backtrack_case(rng, "thorough")
 
